@@ -9,20 +9,6 @@ import (
 // serialised to real tree objects and delivered to the real Graph in every
 // order; the aggregate must equal an order-free recursive oracle.
 
-func vpMkOID(kind byte, i int) git.OID {
-	var b [20]byte
-	b[0] = kind
-	b[1] = byte(i + 1)
-	for j := 2; j < 20; j++ {
-		b[j] = byte(j) ^ kind
-	}
-	o, err := git.OIDFromBytes(b[:])
-	if err != nil {
-		panic("oid")
-	}
-	return o
-}
-
 type vpEntry struct {
 	kind int // 0 blob, 1 subtree, 2 symlink, 3 gitlink
 	idx  int // blob index or tree index
@@ -34,25 +20,8 @@ type vpTree struct {
 	data    []byte
 }
 
-var vpEntryNames = [4]string{"a", "bb", "ccc", "dddd"}
-
 type vpExp struct {
 	dirs, files, bytes, links, subs, depth, plen uint64
-}
-
-func vpPerm(n int) []int {
-	// a free permutation of 0..n-1 by successive choices
-	rest := make([]int, n)
-	for i := range rest {
-		rest[i] = i
-	}
-	var out []int
-	for len(rest) > 0 {
-		k := vp_Choice("order", len(rest))
-		out = append(out, rest[k])
-		rest = append(rest[:k:k], rest[k+1:]...)
-	}
-	return out
 }
 
 func VPH_graphTrees() {
